@@ -6,6 +6,7 @@ import (
 	"encoding/binary"
 	"encoding/hex"
 	"fmt"
+	"math/bits"
 	"sort"
 	"strings"
 
@@ -29,22 +30,24 @@ var (
 
 // A View is everything a store serves about its best chain, in canonical form.
 type View struct {
-	Height    uint64
-	HasHeight bool
-	MainRaw   map[uint64]types.BlockID // the MainChain bucket
-	Best      []string                 // BestIndex(h) for h = 0..MaxH
-	Blocks    []string                 // per BestIndex: digest of block / digest of supplement
-	States    []string                 // per BestIndex: digest of the stored state
-	TipState  []byte
-	NumLeaves uint64 // size of the element accumulator at the tip
-	SC, SF    map[types.Hash256][]byte
-	FC        map[types.Hash256][]byte
-	FCWE      map[types.Hash256]uint64
-	Exp       map[uint64][]types.Hash256 // expiration lists of the bucket (non-empty ones)
-	ExpServed map[uint64][]types.Hash256 // ExpiringFileContractIDs(h)
-	SuppTxn   consensus.V1TransactionSupplement
-	SuppBlock consensus.V1BlockSupplement
-	Panic     string
+	Height      uint64
+	HasHeight   bool
+	MainRaw     map[uint64]types.BlockID // the MainChain bucket
+	Best        []string                 // BestIndex(h) for h = 0..MaxH
+	Blocks      []string                 // per BestIndex: digest of block / digest of supplement
+	States      []string                 // per BestIndex: digest of the stored state
+	TipState    []byte
+	NumLeaves   uint64                      // size of the element accumulator at the tip
+	Tree        map[[2]uint64]types.Hash256 // the Tree bucket: (row, col) -> hash
+	TreeCurrent bool                        // the store still maintains the Tree bucket at this height (<= require height)
+	SC, SF      map[types.Hash256][]byte
+	FC          map[types.Hash256][]byte
+	FCWE        map[types.Hash256]uint64
+	Exp         map[uint64][]types.Hash256 // expiration lists of the bucket (non-empty ones)
+	ExpServed   map[uint64][]types.Hash256 // ExpiringFileContractIDs(h)
+	SuppTxn     consensus.V1TransactionSupplement
+	SuppBlock   consensus.V1BlockSupplement
+	Panic       string
 }
 
 func digest(b []byte) string {
@@ -92,7 +95,7 @@ func ProbeTxn(sc, sf, fc []types.Hash256) types.Transaction {
 // TakeView dumps what the store serves. db is the database the store runs on,
 // maxH the largest height of interest.
 func TakeView(db chain.DB, st *chain.DBStore, maxH uint64) (v *View) {
-	v = &View{MainRaw: map[uint64]types.BlockID{}, SC: map[types.Hash256][]byte{}, SF: map[types.Hash256][]byte{}, FC: map[types.Hash256][]byte{}, FCWE: map[types.Hash256]uint64{}, Exp: map[uint64][]types.Hash256{}, ExpServed: map[uint64][]types.Hash256{}}
+	v = &View{Tree: map[[2]uint64]types.Hash256{}, MainRaw: map[uint64]types.BlockID{}, SC: map[types.Hash256][]byte{}, SF: map[types.Hash256][]byte{}, FC: map[types.Hash256][]byte{}, FCWE: map[types.Hash256]uint64{}, Exp: map[uint64][]types.Hash256{}, ExpServed: map[uint64][]types.Hash256{}}
 	defer func() {
 		if r := recover(); r != nil {
 			v.Panic = fmt.Sprint(r)
@@ -108,6 +111,16 @@ func TakeView(db chain.DB, st *chain.DBStore, maxH uint64) (v *View) {
 		if len(k) == 8 && len(val) == 32 {
 			v.MainRaw[binary.BigEndian.Uint64(k)] = types.BlockID(val)
 		}
+	})
+	iterBucket(db, BucketTree, func(k, val []byte) {
+		if len(k) != 4 || len(val) != 32 {
+			panic(fmt.Sprintf("Tree bucket entry with key %x and a %d-byte value", k, len(val)))
+		}
+		// treeKey (db.go:522-529): the top `row` bits are ones, then the column
+		key := binary.BigEndian.Uint32(k)
+		row := uint64(bits.LeadingZeros32(^key))
+		col := uint64(key) & (1<<(32-row) - 1)
+		v.Tree[[2]uint64{row, col}] = types.Hash256(val)
 	})
 	iterBucket(db, BucketSC, func(k, val []byte) { v.SC[types.Hash256(k)] = val })
 	iterBucket(db, BucketSF, func(k, val []byte) { v.SF[types.Hash256(k)] = val })
@@ -168,6 +181,7 @@ func TakeView(db chain.DB, st *chain.DBStore, maxH uint64) (v *View) {
 		if cs, ok := st.State(tip.ID); ok {
 			v.TipState = Enc(cs)
 			v.NumLeaves = cs.Elements.NumLeaves
+			v.TreeCurrent = cs.Network != nil && v.Height <= cs.Network.HardforkV2.RequireHeight
 		}
 		v.SuppTxn = st.SupplementTipTransaction(ProbeTxn(sortedIDs(v.SC), sortedIDs(v.SF), sortedIDs(v.FC)))
 		v.SuppBlock = st.SupplementTipBlock(types.Block{ParentID: tip.ID})
@@ -325,6 +339,43 @@ func Compare(a, b *View) (ds []Difference) {
 	add(cmpStrings("states", a.States, b.States))
 	if !bytes.Equal(a.TipState, b.TipState) {
 		add(&Difference{Section: "tip-state", Detail: "the state stored for the tip differs from the twin's"})
+	}
+	{
+		// the accumulator nodes whose leaves lie wholly inside the accumulator (stale nodes
+		// above or to the right are allowed: revertElements never deletes)
+		live := func(v *View) map[[2]uint64]types.Hash256 {
+			m := map[[2]uint64]types.Hash256{}
+			for k, h := range v.Tree {
+				if (k[1]+1)<<k[0] <= v.NumLeaves {
+					m[k] = h
+				}
+			}
+			return m
+		}
+		x, y := live(a), live(b)
+		if !a.TreeCurrent || !b.TreeCurrent {
+			x, y = nil, nil
+		}
+		var keys [][2]uint64
+		for k := range x {
+			keys = append(keys, k)
+		}
+		for k := range y {
+			if _, ok := x[k]; !ok {
+				keys = append(keys, k)
+			}
+		}
+		sort.Slice(keys, func(i, j int) bool {
+			return keys[i][0] < keys[j][0] || keys[i][0] == keys[j][0] && keys[i][1] < keys[j][1]
+		})
+		for _, k := range keys {
+			p, pok := x[k]
+			q, qok := y[k]
+			if pok != qok || p != q {
+				add(&Difference{Section: "tree-live-nodes", Detail: fmt.Sprintf("accumulator node (row %d, col %d), live at %d leaves: stored %v (%v), the twin has %v (%v)", k[0], k[1], a.NumLeaves, pok, p, qok, q)})
+				break
+			}
+		}
 	}
 	add(cmpBucket("siacoin-elements", a.SC, b.SC))
 	add(cmpBucket("siafund-elements", a.SF, b.SF))
